@@ -213,6 +213,34 @@ def run(R, tier):
                     viol('callable-operand', f'a nested callable on the {side} of {sym} is not replaced by its value with the operand order kept',
                          algebra=spec, op=sym, side=side)
 
+        # 5. division with a sequence / callable / array of elements on the left: `other / c` is other * c.inv() element by
+        #    element, in this order (c an invertible element that does not commute with the numerators)
+        nn = [k for k in canon if k and bin(k).count('1') == 1 and sig[int(k).bit_length() - 1] != 0]
+        if len(nn) >= 2:
+            kc2 = rng.sample(nn, 2)
+            c2 = oc.make_mv(alg, kc2, [2.0, 1.0])
+            if abs(float((c2 * c2).e)) > 1e-9:           # invertible vector (its square is a non-zero scalar)
+                for ctor in (list, tuple):
+                    R.count('clause=sequence-division'); R.case(('seqdiv', algs.describe(spec), ctor.__name__, tuple(ka), tuple(kb), tuple(kc2)), True)
+                    try:
+                        got = ctor([a, b]) / c2
+                        want = [a * c2.inv(), b * c2.inv()]
+                    except Exception as e:  # noqa
+                        viol('sequence-raises', f'{ctor.__name__} / c raised {type(e).__name__}: {e}', algebra=spec, op='/', side='left'); continue
+                    if type(got) is not ctor or len(got) != 2 or not all(same(items(g), items(w)) for g, w in zip(got, want)):
+                        viol('sequence-operand', f'[a, b] / c with a {ctor.__name__} on the left is not (a * c.inv(), b * c.inv()) in Algebra({algs.describe(spec)}); '
+                                                 f'a keys {ka}, b keys {kb}, c = 2 e{kc2[0]} + e{kc2[1]} (binary keys)',
+                             algebra=spec, op='/', side='left', container=ctor.__name__,
+                             a=[(k, float(v)) for k, v in zip(a.keys(), a.values())], b=[(k, float(v)) for k, v in zip(b.keys(), b.values())],
+                             c=[(k, float(v)) for k, v in zip(c2.keys(), c2.values())])
+                try:
+                    got = items((lambda: a) / c2); want = items(a * c2.inv())
+                    R.count('clause=callable-division'); R.case(('calldiv', algs.describe(spec), tuple(ka), tuple(kc2)), True)
+                    if not same(got, want):
+                        viol('callable-operand', f'callable / c is not value * c.inv() (operand order) in Algebra({algs.describe(spec)})', algebra=spec, op='/', side='left')
+                except TypeError:
+                    pass            # python did not dispatch to the reflected dunder
+
     storage_part(R, tier)
 
 
